@@ -25,6 +25,7 @@ HasUnhashableKnown(v) ==
       [] v.k = "seq"      -> \E i \in 1..Len(v.ms) : HasUnhashableKnown(v.ms[i].t)
       [] v.k = "subclass" -> HasUnhashableKnown(v.t)
       [] v.k = "union"    -> \E i \in 1..Len(v.ms) : HasUnhashableKnown(v.ms[i])
+      [] v.k = "dictinc"  -> \E i \in 1..Len(v.kvs) : HasUnhashableKnown(v.kvs[i].key) \/ HasUnhashableKnown(v.kvs[i].val)
       [] OTHER            -> FALSE
 \* structural equality in which the members of a union form a set
 RECURSIVE StructEq(_, _)
@@ -38,6 +39,10 @@ StructEq(a, b) ==
            [] a.k = "typeddict" -> {a.items[i].key : i \in 1..Len(a.items)} = {b.items[i].key : i \in 1..Len(b.items)}
            [] a.k = "union"    -> /\ \A i \in 1..Len(a.ms) : \E j \in 1..Len(b.ms) : StructEq(a.ms[i], b.ms[j])
                                   /\ \A j \in 1..Len(b.ms) : \E i \in 1..Len(a.ms) : StructEq(a.ms[i], b.ms[j])
+           \* DictIncompleteValue: dataclass hash over (typ, args, kv_pairs); KVPair is a frozen dataclass
+           [] a.k = "dictinc"  -> Len(a.kvs) = Len(b.kvs)
+                                  /\ \A i \in 1..Len(a.kvs) : /\ a.kvs[i].many = b.kvs[i].many /\ a.kvs[i].req = b.kvs[i].req
+                                                              /\ StructEq(a.kvs[i].key, b.kvs[i].key) /\ StructEq(a.kvs[i].val, b.kvs[i].val)
            [] a.k = "known"    -> KVEq(a.o, b.o)      \* hash((type(val), val)): 1, 1.0 and True hash alike
            [] OTHER            -> a = b
 ImplSameHash(a, b) == StructEq(a, b) /\ ~HasUnhashableKnown(a)
@@ -65,7 +70,13 @@ ImplEq(a, b) ==
            [] a.k = "typeddict" ->
                 /\ {a.items[i].key : i \in 1..Len(a.items)} = {b.items[i].key : i \in 1..Len(b.items)}
                 /\ \A i \in 1..Len(a.items) : \A j \in 1..Len(b.items) :
-                      a.items[i].key = b.items[j].key => (a.items[i].req = b.items[j].req /\ ImplEq(a.items[i].t, b.items[j].t))
+                      a.items[i].key = b.items[j].key => (a.items[i].req = b.items[j].req /\ a.items[i].ro = b.items[j].ro
+                                                          /\ ImplEq(a.items[i].t, b.items[j].t))
+           \* DictIncompleteValue / KVPair: dataclass equality, pair by pair in order
+           [] a.k = "dictinc" ->
+                /\ Len(a.kvs) = Len(b.kvs)
+                /\ \A i \in 1..Len(a.kvs) : /\ a.kvs[i].many = b.kvs[i].many /\ a.kvs[i].req = b.kvs[i].req
+                                            /\ ImplEq(a.kvs[i].key, b.kvs[i].key) /\ ImplEq(a.kvs[i].val, b.kvs[i].val)
            [] a.k = "union"    ->
                 \/ ImplEqSeq(a.ms, b.ms)
                 \/ /\ \A i \in 1..Len(a.ms) : \E j \in 1..Len(b.ms) : ImplEq(a.ms[i], b.ms[j]) /\ ImplSameHash(a.ms[i], b.ms[j])
